@@ -1,11 +1,77 @@
 mod decode;
 mod exec;
 mod imgbuild;
+mod mutate;
 mod scen;
 mod sim;
 
 use serde_json::{json, Value};
 use std::io::{BufRead, Write};
+
+/// run one scenario; returns (events, summary, defs, next id)
+fn run_one(sc: scen::Scenario, next_id: i64) -> (Vec<Value>, Value, Vec<Value>, i64) {
+    let name = sc.name.clone();
+    match scen::Runner::new(sc, next_id) {
+        Ok(mut r) => {
+            r.run();
+            r.patch_maxb();
+            let ev = std::mem::take(&mut r.sink.borrow_mut().ev);
+            let defs = std::mem::take(&mut r.sink.borrow_mut().intern.defs);
+            let nid = r.sink.borrow().intern.next_id;
+            let summ = json!({"name": name, "events": ev.len(), "stuck": r.stuck, "panicked": r.panicked,
+                "notes": r.outcome, "max_conc": r.max_conc,
+                "sched": r.schedules.iter().map(|s| s.iter().map(|c| c.to_json()).collect::<Vec<_>>()).collect::<Vec<_>>(),
+                "reqs": r.world.borrow().reqs.len(), "faults": r.world.borrow().faults_injected,
+                "bytes_requested": r.world.borrow().bytes_requested,
+                "file_kib": r.world.borrow().files.iter().map(|f| f.data.len()).sum::<usize>() >> 10});
+            // a stuck/panicked device must not be dropped normally
+            if r.stuck || r.panicked {
+                std::mem::forget(r);
+            }
+            (ev, summ, defs, nid)
+        }
+        Err(e) => (vec![], json!({"name": name, "open_failed": true, "msg": e}), vec![], next_id),
+    }
+}
+
+/// C14: every scenario in its own process with an address-space limit, so
+/// that an abort (allocation failure, stack overflow, segfault) or a hang in
+/// the code under test is data and not the end of the harness
+fn run_isolated(sc: scen::Scenario, next_id: i64, tmp: &str) -> Result<(Vec<Value>, Value, Vec<Value>, i64), String> {
+    let _ = std::fs::remove_file(tmp);
+    let pid = unsafe { libc::fork() };
+    if pid == 0 {
+        unsafe {
+            let lim = libc::rlimit { rlim_cur: 3 << 30, rlim_max: 3 << 30 };
+            libc::setrlimit(libc::RLIMIT_AS, &lim);
+            libc::alarm(20);
+        }
+        let base = CUR.load(std::sync::atomic::Ordering::Relaxed);
+        PEAK.store(base, std::sync::atomic::Ordering::Relaxed);
+        let r = std::panic::catch_unwind(std::panic::AssertUnwindSafe(|| run_one(sc, next_id)));
+        let code = match r {
+            Ok((ev, mut summ, defs, nid)) => {
+                summ["peak_kib"] = json!((PEAK.load(std::sync::atomic::Ordering::Relaxed).saturating_sub(base)) >> 10);
+                let v = json!({"ev": ev, "summ": summ, "defs": defs, "nid": nid});
+                std::fs::write(tmp, v.to_string()).map(|_| 0).unwrap_or(3)
+            }
+            Err(_) => 4,
+        };
+        unsafe { libc::_exit(code) };
+    }
+    let mut status = 0;
+    unsafe { libc::waitpid(pid, &mut status, 0) };
+    if libc::WIFEXITED(status) && libc::WEXITSTATUS(status) == 0 {
+        let txt = std::fs::read_to_string(tmp).map_err(|e| e.to_string())?;
+        let v: Value = serde_json::from_str(&txt).map_err(|e| e.to_string())?;
+        Ok((v["ev"].as_array().cloned().unwrap_or_default(), v["summ"].clone(),
+            v["defs"].as_array().cloned().unwrap_or_default(), v["nid"].as_i64().unwrap_or(next_id)))
+    } else if libc::WIFSIGNALED(status) {
+        Err(format!("killed by signal {}", libc::WTERMSIG(status)))
+    } else {
+        Err(format!("exit code {}", libc::WEXITSTATUS(status)))
+    }
+}
 
 fn run_scenarios(inp: &str, out: &str) -> i32 {
     let f = std::fs::File::open(inp).expect("open scenarios");
@@ -29,29 +95,28 @@ fn run_scenarios(inp: &str, out: &str) -> i32 {
         let name = sc.name.clone();
         n += 1;
         let t0 = std::time::Instant::now();
-        let res = std::panic::catch_unwind(std::panic::AssertUnwindSafe(|| {
-            match scen::Runner::new(sc, next_id) {
-                Ok(mut r) => {
-                    r.run();
-                    r.patch_maxb();
-                    let ev = std::mem::take(&mut r.sink.borrow_mut().ev);
-                    let defs = std::mem::take(&mut r.sink.borrow_mut().intern.defs);
-                    let nid = r.sink.borrow().intern.next_id;
-                    let summ = json!({"name": name, "events": ev.len(), "stuck": r.stuck, "panicked": r.panicked,
-                        "notes": r.outcome, "max_conc": r.max_conc,
-                        "sched": r.schedules.iter().map(|s| s.iter().map(|c| c.to_json()).collect::<Vec<_>>()).collect::<Vec<_>>(),
-                        "reqs": r.world.borrow().reqs.len(), "faults": r.world.borrow().faults_injected});
-                    // a stuck/panicked device must not be dropped normally
-                    if r.stuck || r.panicked {
-                        std::mem::forget(r);
+        let base = CUR.load(std::sync::atomic::Ordering::Relaxed);
+        PEAK.store(base, std::sync::atomic::Ordering::Relaxed);
+        let isolate = std::env::var("QV_ISOLATE").is_ok();
+        if isolate {
+            match run_isolated(sc, next_id, &format!("{out}.child")) {
+                Ok((ev, summ, defs, nid)) => {
+                    for e in ev {
+                        writeln!(of, "{}", e).unwrap();
                     }
-                    (ev, summ, defs, nid)
+                    for d in defs {
+                        writeln!(df, "{}", d).unwrap();
+                    }
+                    next_id = nid;
+                    let mut s = summ;
+                    s["ms"] = json!(t0.elapsed().as_millis() as u64);
+                    println!("{}", s);
                 }
-                Err(e) => {
-                    (vec![], json!({"name": name, "open_failed": true, "msg": e}), vec![], next_id)
-                }
+                Err(why) => println!("{}", json!({"name": name, "crashed": why})),
             }
-        }));
+            continue;
+        }
+        let res = std::panic::catch_unwind(std::panic::AssertUnwindSafe(|| run_one(sc, next_id)));
         match res {
             Ok((ev, summ, defs, nid)) => {
                 for e in ev {
@@ -63,6 +128,7 @@ fn run_scenarios(inp: &str, out: &str) -> i32 {
                 next_id = nid;
                 let mut s = summ;
                 s["ms"] = json!(t0.elapsed().as_millis() as u64);
+                s["peak_kib"] = json!((PEAK.load(std::sync::atomic::Ordering::Relaxed).saturating_sub(base)) >> 10);
                 println!("{}", s);
             }
             Err(_) => {
@@ -75,6 +141,29 @@ fn run_scenarios(inp: &str, out: &str) -> i32 {
     let _: Value = json!(n);
     0
 }
+
+/// counting allocator: peak heap use per scenario (C14: memory must stay in
+/// proportion to the file and the request)
+struct Counting;
+static CUR: std::sync::atomic::AtomicUsize = std::sync::atomic::AtomicUsize::new(0);
+static PEAK: std::sync::atomic::AtomicUsize = std::sync::atomic::AtomicUsize::new(0);
+unsafe impl std::alloc::GlobalAlloc for Counting {
+    unsafe fn alloc(&self, l: std::alloc::Layout) -> *mut u8 {
+        use std::sync::atomic::Ordering::Relaxed;
+        let p = std::alloc::System.alloc(l);
+        if !p.is_null() {
+            let c = CUR.fetch_add(l.size(), Relaxed) + l.size();
+            PEAK.fetch_max(c, Relaxed);
+        }
+        p
+    }
+    unsafe fn dealloc(&self, p: *mut u8, l: std::alloc::Layout) {
+        CUR.fetch_sub(l.size(), std::sync::atomic::Ordering::Relaxed);
+        std::alloc::System.dealloc(p, l)
+    }
+}
+#[global_allocator]
+static GLOBAL: Counting = Counting;
 
 struct StderrLog;
 impl log::Log for StderrLog {
